@@ -459,6 +459,7 @@ def run(ctx):
                 # the post-target span: Option<Span> local assigned Some(as_span(current pair)) under `flag && is_none`
                 cand = None
                 cand_calls = []
+                cand_store_blocks = []
                 for b2 in sorted(f.reachable_blocks()):
                     for st in f.blocks[b2]["stmts"]:
                         if st["k"] == "assign" and not st["dst"]["p"] and st["rv"]["k"] == "use" and f.local_ty(st["dst"]["l"]).startswith("std::option::Option<pest::Span"):
@@ -482,7 +483,33 @@ def run(ctx):
                                     if guarded:
                                         cand = st["dst"]["l"]
                                         cand_calls.append(ch[0].bb)
+                                        cand_store_blocks.append(b2)
                 ctx.check(cand is not None, "C13-R4", "post-target-span", "the span of the first pair after the target argument is recorded", f.where())
+                # ... of the *first* pair only: the store is also guarded by "nothing recorded yet" (otherwise every later
+                # argument overwrites it and the anchor ends up at the message literal)
+                if cand is not None:
+                    first_only = True
+                    for b2 in cand_store_blocks:
+                        ok1 = False
+                        for sb in dom.get(b2, ()):
+                            t = f.term(sb)
+                            if t["k"] != "switch":
+                                continue
+                            k, pl, neg = trace_bool(f, t["discr"])
+                            if k == "call" and pl.matches(r"Option::<.*>::is_none$|Option::<.*>::is_some$") and pl.args and pure_local(f, pl.args[0]) == cand:
+                                tt, ft = bool_switch_targets(f, sb)
+                                if neg:
+                                    tt, ft = ft, tt
+                                arm = tt if pl.matches(r"is_none$") else ft
+                                if arm in dom.get(b2, ()) or arm == b2:
+                                    ok1 = True
+                            es = enum_switch(f, sb)
+                            if es is not None and not es[0]["p"] and es[0]["l"] == cand:
+                                arm0 = es[1].get(0, es[2])
+                                if arm0 in dom.get(b2, ()) or arm0 == b2:
+                                    ok1 = True
+                        first_only = first_only and ok1
+                    ctx.check(first_only, "C13-R4", "post-target-first-only", "that span is recorded once per statement (guarded by `is_none()` of itself): it is the pair that directly follows the target", f.where(cand_store_blocks[0]) if cand_store_blocks else f.where())
                 # the StructuredNew anchor uses it when present
                 _, pos = code_positions(_Quiet(), facts, "C13-R4")
                 used = [p for p in pos if p["span"] is not None and (_root_is_payload_of(f, p["span"], cand) or _value_from_calls(f, p["span"], cand_calls))]
